@@ -1,5 +1,5 @@
 SPECIFICATION Spec
 CONSTANTS
-  FaultKinds = {"omit", "neg", "zero", "inf"}
+  FaultKinds = {"omit", "neg", "zero", "inf", "eqstep"}
 INVARIANTS Inv_Schema Inv_Rules
 CHECK_DEADLOCK FALSE
